@@ -42,6 +42,18 @@ CHECKS.update({
             'every history of <=3 execute() calls (8 exit paths x raising-callback subsets x overlapping call x dut id) enumerated by TLC is replayed '
             'on a single real Test object; callbacks snapshot the record they receive (finality, times, dut id, metadata, phases); Test.state, '
             'TEST_INSTANCES and the openhtf logger handlers are inspected after every call', _EXEC_NOTE, 'DESIGN.md 5/C09'),
+    'C06': ('TLA+ spec Measurement.tla (OutcomeFormula, MarginalFormula, NoPartiallySet, OrderStable, RejectedChangeNothing) checked by TLC; emitted assignment histories replayed in real phases',
+            'all histories of <=3 (quick) / <=4 (thorough) body statements x 8 validator lists x 3 transforms on a scalar and a dimensioned measurement, '
+            'enumerated by TLC; each runs as the body of a real phase; in-memory outcome/marginal/recorded value compared with the model after every '
+            'statement and in the phase record; exceptions surfaced to the body and the phase result compared',
+            'trusted: TLC, checks/measlib.py (abstract validator callables, value families incl. None/NaN/str/10**30), packing of histories into one test run',
+            'DESIGN.md 5/C06'),
+    'C10': ('TLA+ specs Measurement.tla (Read action) and RecordView.tla (ViewCoherent, EveryListRepresented, value-kind table) checked by TLC; emitted histories, record shapes and table rows replayed',
+            'live view and record rendering compared with the in-memory measurements after every TLC-emitted history; every record list of records '
+            'produced by Executor-family programs must be represented entry by entry in as_base_types(); OutputToJSON output parsed strictly and '
+            'compared with the base-type view; value-kind table (11 kinds x 5 containers x allow_nan) and attachment payload classes replayed',
+            'trusted: TLC, checks/c10.py projections; record lists compared on identifying fields, float/base64 byte fidelity only on the concretisation set',
+            'DESIGN.md 5/C10'),
 })
 
 NOT_APPLICABLE = {
